@@ -165,6 +165,21 @@ type c18Op struct {
 	Name string `json:"name,omitempty"`
 	Kind string `json:"kind,omitempty"` // A | B
 	Val  string `json:"val,omitempty"`
+	// api mode, create/update: how the body is written (c18Body): 0 plain YAML,
+	// 1 JSON, 2 YAML document marker + comment + other key order + explicit
+	// version field, 3 quoted scalars + CRLF line ends + an unknown extra field
+	Style int `json:"style,omitempty"`
+	// api mode, req "bad-post" / "bad-put": the flavour of the unacceptable
+	// request: yaml | kind | noname | badname | empty | mismatch (PUT only: the
+	// name in the URL is Name, the name in the body is Other)
+	Bad   string `json:"bad,omitempty"`
+	Other string `json:"other,omitempty"`
+	// api mode, update/delete/get: the client percent-encodes the '~' of the name
+	// in the URL (%7E), as java.net.URLEncoder and older encoders do
+	Enc bool `json:"enc,omitempty"`
+	// mutex mode: which of the member's cluster.Mutex VALUES for the one lock
+	// name the goroutine uses (only with scenario.values == 2)
+	Obj int `json:"obj,omitempty"`
 }
 
 type c18Task struct {
@@ -203,9 +218,75 @@ type c18Scenario struct {
 	// members are constructed fails (MustNewServer only logs that), so the
 	// servers create their mutex lazily in the first lock-taking requests
 	LazyMutex bool `json:"lazy_mutex,omitempty"`
+	// api mode: the three object names of the run (default a, b, c)
+	Names []string `json:"names,omitempty"`
+	// api mode: the store knows a member "ghost" that has left for good (its lease
+	// entry is still there), so DELETE /status/members/ghost succeeds once
+	Ghost bool `json:"ghost,omitempty"`
+	// mutex mode: number of cluster.Mutex values every member creates for the
+	// one lock name (1, or 2 with c18GenSecondValue)
+	Values int `json:"values,omitempty"`
 }
 
-var c18Names = []string{"a", "b", "c"}
+// ---- switches for the generator ranges added by the extension round ("ordinary
+// but unexplored inputs"); all assertions behind them follow from the statement
+const (
+	c18GenBadRequests  = true // unacceptable create/update requests: 4xx, nothing changes
+	c18GenBodyStyles   = true // JSON / reordered / quoted+CRLF bodies
+	c18GenNamePools    = true // names sharing prefixes, with - . _ ~ digits, upper case
+	c18GenPurge        = true // DELETE /status/members/{member}: another user of Server.Lock
+	c18GenBigVersions  = true // stored config version beyond 32 bits
+	c18GenEncodedTilde = true // '~' of a name sent as %7E in the URL (both outcomes accepted, probes)
+	// mutex mode: two cluster.Mutex values for ONE name on one member (found
+	// C18.two-holders-two-mutex-values-one-member, repaired in /repo c2b83a7)
+	c18GenSecondValue = true
+)
+
+var c18DefaultNames = []string{"a", "b", "c"}
+
+// c18Names is the name pool of the run in progress (set at the start of Exec;
+// runs of one process are sequential).
+var c18Names = c18DefaultNames
+
+var c18NamePools = [][]string{
+	{"a", "b", "c"},
+	{"a", "ab", "abc"},             // every name is a prefix of the next
+	{"svc", "svc-1", "svc.v2"},     // - and . and digits
+	{"Pipe_1", "pipe_1", "pipe~1"}, // case differs only, _ and ~
+	{"httpserver-demo", "httpserver-demo-2", "h"},
+}
+
+func c18ValidName(n string) bool {
+	if len(n) == 0 || len(n) > 40 || n == "ghost" || n == "nobody" {
+		return false
+	}
+	for _, ch := range n {
+		switch {
+		case ch >= 'a' && ch <= 'z', ch >= 'A' && ch <= 'Z', ch >= '0' && ch <= '9', ch == '-', ch == '_', ch == '.', ch == '~':
+		default:
+			return false
+		}
+	}
+	return true
+}
+
+// c18Pool returns the three names of a scenario: sc.Names where usable (a shrunk
+// or hand-written scenario may carry fewer / invalid / duplicate names), the
+// defaults elsewhere.
+func c18Pool(sc *c18Scenario) []string {
+	pool := append([]string(nil), c18DefaultNames...)
+	if len(sc.Names) != 3 {
+		return pool
+	}
+	seen := map[string]bool{}
+	for _, n := range sc.Names {
+		if !c18ValidName(n) || seen[n] {
+			return pool
+		}
+		seen[n] = true
+	}
+	return append([]string(nil), sc.Names...)
+}
 
 func c18GenFaults(rng *sim.Rand, sc *c18Scenario, spanUs int64, n int) {
 	to := sc.ReqTimeoutMs * 1000
@@ -260,6 +341,9 @@ func c18Gen(rng *sim.Rand, tier string) interface{} {
 				sc.LatMul = append(sc.LatMul, int64(rng.Pick(1, 1, 1, 2, 3, 5, 9)))
 			}
 		}
+		if c18GenSecondValue && rng.Bool(0.3) {
+			sc.Values = 2
+		}
 		holds := []int64{0, 1, 1000, 20_000, 20_000, 400_000}
 		if rng.Bool(0.4) {
 			// hold times around / above the time-out: waiters time out without any fault
@@ -273,6 +357,9 @@ func c18Gen(rng *sim.Rand, tier string) interface{} {
 				var tot int64
 				for i, n := 0, rng.Range(1, 4); i < n; i++ {
 					op := c18Op{GapUs: int64(rng.Pick(0, 0, 1, 1307, 52_101, 303_217)), HoldUs: holds[rng.Intn(len(holds))]}
+					if sc.Values == 2 {
+						op.Obj = rng.Intn(2)
+					}
 					tot += op.GapUs + op.HoldUs
 					t.Ops = append(t.Ops, op)
 				}
@@ -306,13 +393,28 @@ func c18Gen(rng *sim.Rand, tier string) interface{} {
 		sc.ReqTimeoutMs = int64(rng.Pick(300, 1700))
 		sc.LatencyUs = int64(rng.Pick(0, 211, 3109))
 	}
+	pool := c18DefaultNames
+	if c18GenNamePools && rng.Bool(0.5) {
+		pool = c18NamePools[rng.Intn(len(c18NamePools))]
+		sc.Names = append([]string(nil), pool...)
+	}
 	nn := rng.Pick(2, 3, 3)
 	for i := 0; i < nn; i++ {
 		if rng.Bool(0.35) {
-			sc.Init = append(sc.Init, c18Init{Name: c18Names[i], Kind: rng.PickStr("A", "A", "B"), Val: "v" + strconv.Itoa(rng.Range(1, 4))})
+			sc.Init = append(sc.Init, c18Init{Name: pool[i], Kind: rng.PickStr("A", "A", "B"), Val: "v" + strconv.Itoa(rng.Range(1, 4))})
 		}
 	}
 	sc.InitVersion = int64(rng.Pick(0, 0, 1, 7))
+	if c18GenBigVersions && rng.Bool(0.12) {
+		// a long-lived cluster: the counter is beyond 31 / 32 bits
+		sc.InitVersion = []int64{2147483646, 2147483647, 4294967295, 999999999999}[rng.Intn(4)]
+	}
+	badOn := c18GenBadRequests && rng.Bool(0.6)
+	stylesOn := c18GenBodyStyles && rng.Bool(0.5)
+	purgeOn := c18GenPurge && rng.Bool(0.35)
+	if purgeOn && rng.Bool(0.7) {
+		sc.Ghost = true
+	}
 	nt := rng.Range(2, 4)
 	budget := 20
 	var span int64
@@ -321,9 +423,35 @@ func c18Gen(rng *sim.Rand, tier string) interface{} {
 		var tot int64
 		for i, n := 0, rng.Range(2, 7); i < n && budget > 0; i++ {
 			budget--
-			op := c18Op{GapUs: int64(rng.Pick(0, 0, 0, 1, 1307, 52_101)), Name: c18Names[rng.Intn(nn)],
+			ni := rng.Intn(nn)
+			op := c18Op{GapUs: int64(rng.Pick(0, 0, 0, 1, 1307, 52_101)), Name: pool[ni],
 				Kind: rng.PickStr("A", "A", "B"), Val: "v" + strconv.Itoa(rng.Range(1, 4))}
+			if stylesOn {
+				op.Style = rng.Pick(0, 0, 1, 2, 3)
+			}
+			if c18GenEncodedTilde && strings.Contains(op.Name, "~") && rng.Bool(0.5) {
+				op.Enc = true
+			}
+			extra := 100
+			if badOn || purgeOn {
+				extra = rng.Intn(100)
+			}
 			switch x := rng.Intn(100); {
+			case badOn && extra < 10:
+				if rng.Bool(0.5) {
+					op.Req = "bad-post"
+					op.Bad = rng.PickStr("yaml", "kind", "noname", "badname", "empty")
+				} else {
+					op.Req = "bad-put"
+					op.Bad = rng.PickStr("yaml", "kind", "noname", "empty", "mismatch", "mismatch", "mismatch")
+					op.Other = pool[(ni+1+rng.Intn(2))%3]
+				}
+			case purgeOn && extra >= 10 && extra < 17:
+				op.Req = "purge"
+				op.Name = "nobody"
+				if sc.Ghost && rng.Bool(0.75) {
+					op.Name = "ghost"
+				}
 			case x < 32:
 				op.Req = "create"
 			case x < 57:
@@ -357,8 +485,8 @@ func c18Gen(rng *sim.Rand, tier string) interface{} {
 			}
 			if len(t.Ops) > 0 {
 				t.Ops[0].GapUs = 0
-				if t.Ops[0].Req == "get" || t.Ops[0].Req == "list" {
-					t.Ops[0].Req = "create"
+				if r := t.Ops[0].Req; r != "create" && r != "update" && r != "delete" && r != "purge" {
+					t.Ops[0] = c18Op{Req: "create", Name: t.Ops[0].Name, Kind: t.Ops[0].Kind, Val: t.Ops[0].Val, Style: t.Ops[0].Style}
 				}
 			}
 		}
@@ -388,20 +516,23 @@ type c18Member struct {
 	cls      cluster.Cluster
 	leaseHex string
 	obs      *c18ObsMutex
+	obs2     *c18ObsMutex // mutex mode with scenario.values == 2: a second cluster.Mutex value for the same name
 	srv      *Server
 
 	lastOp       string // lock-ok | lock-fail | unlock-ok | unlock-fail
 	lastOpRev    int64  // store revision when the member's last Lock/Unlock call returned
 	tenureRev    int64  // lastOpRev as it was when the current tenure's Lock call returned
+	usedVals     int    // bit set of the cluster.Mutex values (1, 2) through which the member has called Lock
 	unlocking    int    // Unlock calls in progress
 	failedLock   int
 	failedUnlock int
 }
 
 type c18Holder struct {
-	id string
-	m  *c18Member
-	at time.Duration
+	id  string
+	m   *c18Member
+	val int // which cluster.Mutex value of the member
+	at  time.Duration
 }
 
 type c18Env struct {
@@ -649,7 +780,7 @@ func (c *c18Cluster) Mutex(name string) (cluster.Mutex, error) {
 	if err != nil {
 		return nil, err
 	}
-	return &c18ObsMutex{e: c.e, m: c.m, inner: mx}, nil
+	return &c18ObsMutex{e: c.e, m: c.m, inner: mx, val: c.created}, nil
 }
 
 // c18ObsMutex wraps the member's real cluster.Mutex: enter = Lock returned nil,
@@ -658,6 +789,7 @@ type c18ObsMutex struct {
 	e     *c18Env
 	m     *c18Member
 	inner cluster.Mutex
+	val   int // ordinal of the value among those the member created
 }
 
 func (o *c18ObsMutex) Lock() error {
@@ -679,6 +811,9 @@ func (o *c18ObsMutex) Unlock() error {
 func (o *c18ObsMutex) LockAs(id string) error {
 	e := o.e
 	waited := len(e.holders) > 0
+	if o.val == 1 || o.val == 2 {
+		o.m.usedVals |= o.val
+	}
 	err := o.inner.Lock()
 	// no gate between the return of Lock and the bookkeeping
 	prevRev := o.m.lastOpRev
@@ -691,7 +826,7 @@ func (o *c18ObsMutex) LockAs(id string) error {
 			e.contended++
 		}
 		e.acqOrder = append(e.acqOrder, o.m.name)
-		e.enter(id, o.m)
+		e.enter(id, o.m, o.val)
 	} else {
 		o.m.lastOp = "lock-fail"
 		o.m.failedLock++
@@ -781,21 +916,33 @@ func (e *c18Env) lateDelete(m *c18Member) string {
 	return ""
 }
 
-func (e *c18Env) enter(id string, m *c18Member) {
+func (e *c18Env) enter(id string, m *c18Member, val int) {
 	r := e.r
-	e.note("%v %s ENTER", r.Now(), id)
+	e.note("%v %s ENTER (mutex value %d of %s)", r.Now(), id, val, m.name)
 	if len(e.holders) > 0 && !e.twoHolders {
 		e.twoHolders = true
 		h := e.holders[0]
 		class, extra := "C18.two-holders", ""
+		late := (e.lateDelete(h.m) != "" && h.m.failedLock+h.m.failedUnlock > 0) || (e.lateDelete(m) != "" && m.failedLock+m.failedUnlock > 0)
 		switch {
+		case h.m == m && h.val != val:
+			// two goroutines of one member, each through its own cluster.Mutex value
+			// for the same name: the process-local lock is per VALUE, the etcd key
+			// per member (session), so the second Lock finds "its" key and returns
+			// (or, as a consequence, the Unlock through one value deleted the key
+			// under the holder that came in through the other one)
+			class = "C18.two-holders-two-mutex-values-one-member"
+		case (h.m.usedVals == 3 || m.usedVals == 3) && !late:
+			// consequence of the same: the Unlock through one value deleted the
+			// member's key under a holder that came in through the other value
+			class = "C18.two-holders-two-mutex-values-one-member"
 		case h.m == m:
 			// the process-local lock did not serialise two goroutines of one member
 			class = "C18.two-holders-same-member"
 		case h.m.unlocking > 0 || m.unlocking > 0:
 			// a goroutine got in while an Unlock of its own member is still running
 			class = "C18.two-holders-during-unlock"
-		case (e.lateDelete(h.m) != "" && h.m.failedLock+h.m.failedUnlock > 0) || (e.lateDelete(m) != "" && m.failedLock+m.failedUnlock > 0):
+		case late:
 			// the lock key of one of the two was deleted during its present tenure,
 			// i.e. after the member's previous Lock/Unlock call had returned: by a
 			// DeleteRange which an EARLIER call of that member (a timed-out Unlock, or
@@ -808,7 +955,7 @@ func (e *c18Env) enter(id string, m *c18Member) {
 		}
 		c18Violate(r, class, "%s acquired the mutex at %v while %s (holding since %v) has not called Unlock\n%s%s", id, r.Now(), h.id, h.at, extra, e.describe())
 	}
-	e.holders = append(e.holders, c18Holder{id: id, m: m, at: r.Now()})
+	e.holders = append(e.holders, c18Holder{id: id, m: m, val: val, at: r.Now()})
 }
 
 func (e *c18Env) leave(id string) {
@@ -860,12 +1007,17 @@ func (o c18Obj) String() string {
 }
 
 type c18State struct {
-	ver int64
-	o   [3]c18Obj
+	ver   int64
+	o     [3]c18Obj
+	ghost bool // the lease entry of the departed member "ghost" exists
 }
 
 func (s c18State) String() string {
-	return fmt.Sprintf("{ver %d a=%v b=%v c=%v}", s.ver, s.o[0], s.o[1], s.o[2])
+	g := ""
+	if s.ghost {
+		g = " +ghost member"
+	}
+	return fmt.Sprintf("{ver %d %s=%v %s=%v %s=%v%s}", s.ver, c18Names[0], s.o[0], c18Names[1], s.o[1], c18Names[2], s.o[2], g)
 }
 
 func c18NameIdx(n string) int {
@@ -896,12 +1048,49 @@ func c18ValNo(v string) uint8 {
 	return 255
 }
 
-func c18YAML(name, kind, val string) string {
+func c18YAML(name, kind, val string) string { return c18Body(name, kind, val, 0) }
+
+// c18Body writes the object the way one of several ordinary clients would.
+func c18Body(name, kind, val string, style int) string {
 	k := c18KindA
 	if c18KindNo(kind) == 2 {
 		k = c18KindB
 	}
+	switch style {
+	case 1: // JSON (egctl accepts JSON files and sends them as they are)
+		return fmt.Sprintf("{\"name\": %q, \"kind\": %q, \"val\": %q}", name, k, val)
+	case 2: // document marker, comment, other key order, explicit version field
+		return fmt.Sprintf("---\n# edited by hand\nkind: %s\nval: %s\nversion: easegress.megaease.com/v2\nname: %s\n", k, val, name)
+	case 3: // quoted scalars, CRLF line ends, a field the kind does not know
+		return fmt.Sprintf("name: %q\r\nkind: '%s'\r\nval: %q\r\nnote: not part of the kind\r\n", name, k, val)
+	}
 	return fmt.Sprintf("name: %s\nkind: %s\nval: %s\n", name, k, val)
+}
+
+// c18BadBody: the body of an unacceptable request of the given flavour.
+func c18BadBody(flavour, name, other, kind, val string) (string, bool) {
+	k := c18KindA
+	if c18KindNo(kind) == 2 {
+		k = c18KindB
+	}
+	switch flavour {
+	case "yaml": // not YAML at all
+		return fmt.Sprintf("name: %s\nkind: [%s\nval: %s\n", name, k, val), true
+	case "kind": // a kind nobody registered
+		return fmt.Sprintf("name: %s\nkind: C18NoSuchKind\nval: %s\n", name, val), true
+	case "noname":
+		return fmt.Sprintf("kind: %s\nval: %s\n", k, val), true
+	case "badname": // characters outside the allowed name alphabet
+		return fmt.Sprintf("name: \"%s /x\"\nkind: %s\nval: %s\n", name, k, val), true
+	case "empty":
+		return "", true
+	case "mismatch": // URL says name, body says other
+		if c18NameIdx(other) < 0 || other == name {
+			return "", false
+		}
+		return fmt.Sprintf("name: %s\nkind: %s\nval: %s\n", other, k, val), true
+	}
+	return "", false
 }
 
 func c18ObjFromMap(m map[string]interface{}) (string, c18Obj) {
@@ -954,12 +1143,16 @@ const (
 	c18OpGet
 	c18OpList
 	c18OpReadVer
+	c18OpBad   // unacceptable create/update request
+	c18OpPurge // DELETE /status/members/{ghost|nobody}; in.name 0 = ghost, 1 = nobody
 )
 
 type c18In struct {
 	op   int
 	name int
 	obj  c18Obj
+	note string // c18OpBad: what was sent (for messages only)
+	enc  bool   // the name was sent percent-encoded in the URL
 }
 
 type c18Out struct {
@@ -969,7 +1162,7 @@ type c18Out struct {
 	list   [3]c18Obj
 }
 
-var c18OpNames = []string{"create", "update", "delete", "get", "list", "read-version"}
+var c18OpNames = []string{"create", "update", "delete", "get", "list", "read-version", "bad-request", "purge-member"}
 
 func c18Describe(in c18In, out c18Out) string {
 	switch in.op {
@@ -980,7 +1173,11 @@ func c18Describe(in c18In, out c18Out) string {
 	case c18OpGet:
 		return fmt.Sprintf("get %s -> %d %v", c18Names[in.name], out.status, out.obj)
 	case c18OpList:
-		return fmt.Sprintf("list -> %d a=%v b=%v c=%v", out.status, out.list[0], out.list[1], out.list[2])
+		return fmt.Sprintf("list -> %d %s=%v %s=%v %s=%v", out.status, c18Names[0], out.list[0], c18Names[1], out.list[1], c18Names[2], out.list[2])
+	case c18OpBad:
+		return fmt.Sprintf("unacceptable %s -> %d ver %d", in.note, out.status, out.ver)
+	case c18OpPurge:
+		return fmt.Sprintf("purge member %s -> %d ver %d", []string{"ghost", "nobody"}[in.name&1], out.status, out.ver)
 	}
 	return fmt.Sprintf("read-version -> %d", out.ver)
 }
@@ -991,6 +1188,15 @@ func c18Describe(in c18In, out c18Out) string {
 // without any change; every successful mutation increments the counter by one
 // and returns the new value.
 func c18Step(st c18State, in c18In, out c18Out) (bool, c18State) {
+	if in.enc {
+		// statement silent: the encoded name is either understood (normal rules)
+		// or the request is refused as a client error without changing anything
+		in.enc = false
+		if ok, st2 := c18Step(st, in, out); ok {
+			return true, st2
+		}
+		return out.status >= 400 && out.status < 500, st
+	}
 	switch in.op {
 	case c18OpCreate:
 		if st.o[in.name].present {
@@ -1035,6 +1241,19 @@ func c18Step(st c18State, in c18In, out c18Out) (bool, c18State) {
 		return out.status == 200 && out.list == st.o, st
 	case c18OpReadVer:
 		return out.ver == st.ver, st
+	case c18OpBad:
+		// not a successful request: refused as a client error, nothing changes
+		return out.status >= 400 && out.status < 500, st
+	case c18OpPurge:
+		// no object and no version changes; a member can be purged once
+		if in.name == 0 && st.ghost {
+			if out.status != 200 {
+				return false, st
+			}
+			st.ghost = false
+			return true, st
+		}
+		return out.status == 404, st
 	}
 	return false, st
 }
@@ -1047,7 +1266,9 @@ type c18HistOp struct {
 	call, ret  uint64
 	tcall      time.Duration
 	tret       time.Duration
-	failed     bool // 5xx or aborted: outcome unknown
+	failed     bool   // 5xx or aborted: outcome unknown
+	style      int    // create/update: body style
+	bad        string // c18OpBad: flavour
 	verRead    int64
 	hasVerRead bool
 }
@@ -1141,6 +1362,10 @@ func c18Exec(r *sim.Run, sci interface{}) {
 		return
 	}
 	rand.Seed(sc.Seed) // clientv3's retry jitter draws from the global source
+	c18Names = c18DefaultNames
+	if sc.Mode == "api" {
+		c18Names = c18Pool(sc)
+	}
 
 	n := simnet.New()
 	if len(sc.NetDelayUs) > 0 {
@@ -1213,6 +1438,17 @@ func c18Exec(r *sim.Run, sci interface{}) {
 				return
 			}
 			m.obs = mx.(*c18ObsMutex)
+			if sc.Values == 2 && i < nm {
+				// a second component of the same process asks for "the" cluster mutex
+				// of that name (cluster.Mutex hands out a new value per call)
+				mx2, err := m.cls.Mutex(lockName)
+				if err != nil {
+					r.Violate("C18.harness", "member %s: Mutex (second value): %v", name, err)
+					cleanup()
+					return
+				}
+				m.obs2 = mx2.(*c18ObsMutex)
+			}
 		} else {
 			srv, err := c18NewServer(m.cls, super)
 			if err != nil {
@@ -1257,6 +1493,26 @@ func c18Exec(r *sim.Run, sci interface{}) {
 			}
 			e.store.PutKV(prober.cls.Layout().ConfigObjectKey(o.Name), spec.YAMLConfig())
 			init.o[i] = c18Obj{present: true, kind: c18KindNo(o.Kind), val: c18ValNo(o.Val)}
+		}
+		if sc.Ghost {
+			// a member that has left for good: its lease and, attached to it, its
+			// lease entry (what cluster.grantNewLease writes) are still there
+			g, err := e.store.LeaseGrant(&pb.LeaseGrantRequest{TTL: zzsimetcd.MaxLeaseTTL})
+			if err == nil {
+				_, err = e.store.Put(&pb.PutRequest{Key: []byte(prober.cls.Layout().OtherLease("ghost")), Value: []byte(fmt.Sprintf("%x", g.ID)), Lease: g.ID})
+			}
+			if err != nil {
+				r.Violate("C18.harness", "ghost member: %v", err)
+				cleanup()
+				return
+			}
+			init.ghost = true
+		}
+		if init.ver > 1<<31-2 {
+			r.Probe("init_version_beyond_31_bits")
+		}
+		if len(sc.Names) == 3 && c18Names[1] != "b" {
+			r.Probe("name_pool_" + c18Names[1])
 		}
 	}
 
@@ -1317,8 +1573,13 @@ func c18Exec(r *sim.Run, sci interface{}) {
 				e.tsleep(time.Duration(g) * time.Microsecond)
 				if sc.Mode == "mutex" {
 					id := fmt.Sprintf("%s#%d", name, oi)
+					mx := m.obs
+					if op.Obj == 1 && m.obs2 != nil {
+						mx = m.obs2
+						r.Probe("second_mutex_value_of_member_used")
+					}
 					r.Eventf("%s Lock...", id)
-					err := m.obs.LockAs(id)
+					err := mx.LockAs(id)
 					r.Yield("lock-returned") // calls that end at the same instant return in runtime order
 					if err != nil {
 						r.Eventf("%s Lock failed", id)
@@ -1330,29 +1591,60 @@ func c18Exec(r *sim.Run, sci interface{}) {
 						h = 0
 					}
 					e.tsleep(time.Duration(h) * time.Microsecond)
-					err = m.obs.UnlockAs(id)
+					err = mx.UnlockAs(id)
 					r.Yield("unlock-returned")
 					r.Eventf("%s Unlock -> %v", id, err == nil)
 					continue
 				}
 				// api mode
 				ni := c18NameIdx(op.Name)
-				if op.Req != "list" && ni < 0 {
+				if op.Req != "list" && op.Req != "purge" && ni < 0 {
 					continue
 				}
 				obj := c18Obj{present: true, kind: c18KindNo(op.Kind), val: c18ValNo(op.Val)}
-				if (op.Req == "create" || op.Req == "update") && (obj.kind == 0 || obj.val == 255) {
+				if (op.Req == "create" || op.Req == "update" || op.Req == "bad-post" || op.Req == "bad-put") && (obj.kind == 0 || obj.val == 255) {
 					continue
+				}
+				style := op.Style
+				if style < 0 || style > 3 {
+					style = 0
 				}
 				h := c18HistOp{task: name, member: m.name}
 				var method, path, body string
 				switch op.Req {
 				case "create":
 					h.in = c18In{op: c18OpCreate, name: ni, obj: obj}
-					method, path, body = "POST", APIPrefix+ObjectPrefix, c18YAML(op.Name, op.Kind, op.Val)
+					h.style = style
+					method, path, body = "POST", APIPrefix+ObjectPrefix, c18Body(op.Name, op.Kind, op.Val, style)
 				case "update":
 					h.in = c18In{op: c18OpUpdate, name: ni, obj: obj}
-					method, path, body = "PUT", APIPrefix+ObjectPrefix+"/"+op.Name, c18YAML(op.Name, op.Kind, op.Val)
+					h.style = style
+					method, path, body = "PUT", APIPrefix+ObjectPrefix+"/"+op.Name, c18Body(op.Name, op.Kind, op.Val, style)
+				case "bad-post":
+					b, ok := c18BadBody(op.Bad, op.Name, "", op.Kind, op.Val)
+					if !ok || op.Bad == "mismatch" {
+						continue
+					}
+					h.in = c18In{op: c18OpBad, name: ni, note: fmt.Sprintf("POST [%s] %q", op.Bad, b)}
+					h.bad = op.Bad
+					method, path, body = "POST", APIPrefix+ObjectPrefix, b
+				case "bad-put":
+					b, ok := c18BadBody(op.Bad, op.Name, op.Other, op.Kind, op.Val)
+					if !ok || op.Bad == "badname" {
+						continue
+					}
+					h.in = c18In{op: c18OpBad, name: ni, note: fmt.Sprintf("PUT %s [%s] %q", op.Name, op.Bad, b)}
+					h.bad = op.Bad
+					method, path, body = "PUT", APIPrefix+ObjectPrefix+"/"+op.Name, b
+				case "purge":
+					who := 1
+					if op.Name == "ghost" {
+						who = 0
+					} else if op.Name != "nobody" {
+						continue
+					}
+					h.in = c18In{op: c18OpPurge, name: who}
+					method, path = "DELETE", APIPrefix+"/status/members/"+op.Name
 				case "delete":
 					h.in = c18In{op: c18OpDelete, name: ni}
 					method, path = "DELETE", APIPrefix+ObjectPrefix+"/"+op.Name
@@ -1365,7 +1657,11 @@ func c18Exec(r *sim.Run, sci interface{}) {
 				default:
 					continue
 				}
-				r.Eventf("%s %s %s %s%s", name, method, path, op.Kind, op.Val)
+				if op.Enc && strings.Contains(op.Name, "~") && (op.Req == "update" || op.Req == "delete" || op.Req == "get") {
+					h.in.enc = true
+					path = strings.Replace(path, "~", "%7E", 1)
+				}
+				r.Eventf("%s %s %s %s%s %s%d", name, method, path, op.Kind, op.Val, op.Bad, style)
 				h.call, h.tcall = r.Seq(), r.Now()
 				resp := c18Do(m, method, path, body)
 				h.ret, h.tret = r.Seq(), r.Now()
@@ -1658,6 +1954,15 @@ func c18JudgeAPI(r *sim.Run, e *c18Env, sc *c18Scenario, init c18State, hist []c
 			okStatus = h.out.status == 200 || h.out.status == 404
 		case c18OpList:
 			okStatus = h.out.status == 200
+		case c18OpBad:
+			// a request that is not acceptable is not a successful one: it is refused
+			// (statement silent about the code: any 4xx) ...
+			okStatus = h.out.status >= 400 && h.out.status < 500
+		case c18OpPurge:
+			okStatus = h.out.status == 200 || h.out.status == 404
+		}
+		if h.in.enc && h.out.status >= 400 && h.out.status < 500 {
+			okStatus = true
 		}
 		if !okStatus {
 			r.Violate("C18.unexpected-status", "%s: %s\n%s", h.task, c18Describe(h.in, h.out), describe())
@@ -1725,6 +2030,29 @@ func c18JudgeAPI(r *sim.Run, e *c18Env, sc *c18Scenario, init c18State, hist []c
 		}
 	}
 	for _, h := range hist {
+		if h.failed {
+			continue
+		}
+		if h.in.enc {
+			if h.out.status < 300 {
+				r.Probe("percent_encoded_tilde_in_url_understood")
+			} else {
+				r.Probe("percent_encoded_tilde_in_url_answered_4xx")
+			}
+		}
+		switch {
+		case h.in.op == c18OpBad:
+			r.Probe("unacceptable_request_refused:" + h.bad)
+			if h.out.status != 400 {
+				r.Probe("unacceptable_request_refused_with_other_code_than_400")
+			}
+			continue
+		case h.in.op == c18OpPurge:
+			r.Probe(fmt.Sprintf("purge_member_%d", h.out.status))
+			continue
+		case h.in.op <= c18OpUpdate && h.style > 0 && (h.out.status == 200 || h.out.status == 201):
+			r.Probe(fmt.Sprintf("body_style_%d_stored", h.style))
+		}
 		switch h.out.status {
 		case 409:
 			r.Probe("create_existing_409")
@@ -1811,8 +2139,8 @@ func c18JudgeAPI(r *sim.Run, e *c18Env, sc *c18Scenario, init c18State, hist []c
 		}
 	}
 	if got.o != want.o || extra != "" {
-		r.Violate("C18.final-state-mismatch", "final listing a=%v b=%v c=%v%s, but applying the successful mutations in version order gives a=%v b=%v c=%v\n%s",
-			got.o[0], got.o[1], got.o[2], extra, want.o[0], want.o[1], want.o[2], describe())
+		r.Violate("C18.final-state-mismatch", "final listing %v=%v %v=%v %v=%v%s, but applying the successful mutations in version order gives %v %v %v\n%s",
+			c18Names[0], got.o[0], c18Names[1], got.o[1], c18Names[2], got.o[2], extra, want.o[0], want.o[1], want.o[2], describe())
 		return
 	}
 	if final.ver != want.ver {
